@@ -824,6 +824,14 @@ func (a *effectsAnalysis) callEffects(fn *ssa.Function, ef *Effects, site ssa.Ca
 	name := calleeName(c)
 	ef.Calls[name] = true
 	if name == "dynamic" {
+		// a call through a function-typed parameter to which every (static)
+		// caller binds nil or nothing with a body: no callee, no effect (the call
+		// is guarded by a nil test or panics — C05's concern)
+		if prm, isPrm := c.Value.(*ssa.Parameter); isPrm {
+			if fs := a.w.paramFuncs(a.w.CallGraph(), site.Parent(), prm, 0); fs != nil && len(fs) == 0 {
+				return
+			}
+		}
 		// call of a function value: unknown effects
 		if !ef.WritesUnknown {
 			ef.WritesUnknown = true
